@@ -30,7 +30,7 @@ if [ -n "$CHECKS" ]; then
   # the patched worktree is what the checks build against (VERIF_REPO); /repo itself is not touched,
   # evidence and replay files of these runs go to scratch directories
   for c in $CHECKS; do
-    ( cd /verif && VERIF_REPO=$WT VERIF_EVID=/tmp/seed-$SID-evidence VERIF_REPLAYS=/tmp/seed-$SID-replays timeout 1800 bin/check $c --tier quick > /tmp/seed-$SID-$c.log 2>&1 ); rc=$?
+    ( cd /verif && VERIF_REPO=$WT VERIF_EVID=/tmp/seed-$SID-evidence VERIF_REPLAYS=/tmp/seed-$SID-replays timeout ${CHECK_TIMEOUT:-1800} bin/check $c --tier quick > /tmp/seed-$SID-$c.log 2>&1 ); rc=$?
     RES="$RES $c:rc=$rc"
     grep -E '^(VIOLATION|KNOWN-FINDING|MODEL-DRIFT|  sig)' /tmp/seed-$SID-$c.log | head -5
   done
